@@ -305,6 +305,7 @@ def check(run: Run, prog: Program, model: Model, tier: str) -> None:
         " The validator the substitutor runs rejects exactly the relation each length prop means (guarded by `is Nil`), and the conversion path is free of equality-keyed memoisation.")
     run.explanation += " RESULT-DECLARABLE: Substitutor.visit_list / visit_dict are run on values of concrete shape with `...` placeholders (pre-validation of the schema itself executed, member verdicts left open) and every returned element list / key table is handed back to the declaration's __call__: it must be accepted. RE-PIN: the stored payload and the same value symbol are given to the validator the substitutor runs; a value-mismatch path must compare the value with itself. NATIVE-CONTRACT: C14's ARM/FINAL obligations re-derived."
     run.explanation += ' PRE-VALIDATION-TOTAL: C08.TOTAL re-derived for SubstitutorValidator. RESULT-DECLARABLE also compares the stored key table with the one the declaration stores for it (optional(...) objects as keys of the value).'
+    run.explanation += ' PRE-VALIDATION-FORMS as in C05. PRE-VALIDATION no longer counts a truthiness-guarded min_len (a bound of 0 rejects nothing).'
     run.rule_text = ("obligations per (visit method, prop-set/shape); non-trivial = paths with partial operations, handlers or markers")
     from ..entry import entry_transparent
     entry_transparent(run, prog, model, "substitute", "SUBSTITUTE-ENTRY")
@@ -433,13 +434,15 @@ def check(run: Run, prog: Program, model: Model, tier: str) -> None:
             elif got and got != set(want) and not unknown:
                 run.violated("PRE-VALIDATION", c, fsv.loc, f"the pre-validation rejects ({xk} ? {prop}) in {sorted(got)}, the prop means {sorted(want)}",
                              witness="schema.list.len(0) % [1] returns schema.list([...]).len(0), which accepts nothing")
-            elif falsy:
+            elif falsy and prop != "min_len":        # (a min_len of 0 rejects nothing: skipping it changes no verdict)
                 run.violated("PRE-VALIDATION", c, fsv.loc, f"`{prop}` is honoured only when it is truthy: a declared 0 is skipped",
                              witness="schema.list.len(0) % [1] returns schema.list([...]).len(0), which accepts nothing")
             elif unknown and not got:
                 run.undecided("PRE-VALIDATION", c, fsv.loc, "rejection predicate not a comparison of len(value) with the prop")
             else:
                 run.holds("PRE-VALIDATION", c, fsv.loc, f"rejects exactly ({xk} ? {prop}) in {sorted(want)}", nontrivial=True)
+    from .c02 import prevalidation_forms
+    prevalidation_forms(run, prog, model, tier, "PRE-VALIDATION-FORMS")
     _result_declarable(run, prog, model, tier)
     _prevalidation_total(run, prog, model, tier)
     _repin(run, prog, model, tier)
